@@ -89,13 +89,13 @@ NumChunks(v) == IF v.t = "num" THEN <<v.s>>
                 ELSE IF v.w = 0 THEN <<IntStr(v.n), "/", IntStr(v.d)>> ELSE <<IntStr(v.w), " ", IntStr(v.n), "/", IntStr(v.d)>>
 NumChunksSp(v, sp) == IF v.t = "num" THEN <<v.s>>
                       ELSE IF v.w = 0 THEN <<IntStr(v.n), sp.fs, "/", sp.fs, IntStr(v.d)>>
-                      ELSE <<IntStr(v.w), " ", IntStr(v.n), sp.fs, "/", sp.fs, IntStr(v.d)>>
+                      ELSE <<IntStr(v.w), "SP", IntStr(v.n), sp.fs, "/", sp.fs, IntStr(v.d)>>   \* "SP": a blank C17 may put a block comment at
 ValChunks(v, sp) == CASE v.t \in {"num", "frac"} -> NumChunksSp(v, sp)
                       [] v.t = "range" -> NumChunksSp(v.a, sp) \o <<sp.rs, "-", sp.rs>> \o NumChunksSp(v.b, sp)
                       [] v.t = "text" -> <<v.s>>
 \* what a value written like this READS as: without RANGE a range is a text value (only generated compactly then)
 RECURSIVE Flat(_, _)
-Flat(cs, i) == IF i > Len(cs) THEN "" ELSE cs[i] \o Flat(cs, i + 1)
+Flat(cs, i) == IF i > Len(cs) THEN "" ELSE (IF cs[i] = "SP" THEN " " ELSE cs[i]) \o Flat(cs, i + 1)
 ReadVal(v) == IF v.t = "range" /\ ~Has("RANGE") THEN Txt(Flat(ValChunks(v, Canon), 1)) ELSE v
 CanAdv(q) == Syn("ADVANCED_UNITS") /\ q.v.t # "text" /\ q.unit # "" /\ (Has("ADVANCED_UNITS") \/ ~q.lock)
 \* quantity between braces
@@ -213,7 +213,7 @@ AddWord == /\ InStep /\ Kernel \in {"full", "struct", "defect"}
 \* a number-plus-unit phrase in the text; it must be followed by a blank or the end of the step
 AddInline == /\ InStep /\ Kernel = "full" /\ w.last # "inline"
              /\ \E q \in Pick(Inlines), sp \in SpSet :
-                  /\ text' = text \o ItemSep(sp) \o <<q.n, " ", IF q.u = "C" THEN "DEG" ELSE "", q.u>>
+                  /\ text' = text \o ItemSep(sp) \o <<q.n, "SP", IF q.u = "C" THEN "DEG" ELSE "", q.u>>
                   /\ w' = [w EXCEPT !.ni = @ + 1, !.last = "inline", !.uses = @ \cup (IF UnitKindBundled(IF q.u = "C" THEN "DEGC" ELSE q.u) # "unknown" THEN {"INLINE"} ELSE {}),
                                     !.run = @ \o SepPiece \o <<[t |-> "q", n |-> q.n, u |-> IF q.u = "C" THEN "DEGC" ELSE q.u,
                                                                 raw |-> q.n \o " " \o (IF q.u = "C" THEN "DEGC" ELSE q.u)]>>]
